@@ -113,11 +113,17 @@ Definition apply_upd (e : env) (t : table) (u : upd) : table :=
   map (fun r => if fst r =? fst u then (fst r, set_cells e (snd r) (snd u)) else r) t.
 Definition apply_upds (e : env) (us : list upd) (t : table) : table := fold_left (apply_upd e) us t.
 
-(* Engine.trim_update_action keeps the entries whose values differ from what is stored; the doc action then
-   writes the kept entries in order. *)
+(* doBulkUpdateRecord: of a row named more than once only the LAST occurrence is kept (in the order of these last
+   occurrences); Engine.trim_update_action then keeps the entries whose values differ from what is stored; the
+   doc action writes the kept entries in order. *)
+Fixpoint keep_last (us : list upd) : list upd :=
+  match us with
+  | [] => []
+  | u :: t => if memz (fst u) (map fst t) then keep_last t else u :: keep_last t
+  end.
 Definition changed (e : env) (t : table) (u : upd) : bool := negb (table_eqb (apply_upd e t u) t).
 Definition bulk_update (e : env) (t : table) (us : list upd) : table :=
-  apply_upds e (filter (changed e t) us) t.
+  apply_upds e (filter (changed e t) (keep_last us)) t.
 
 (* ---------- doBulkAddOrReplace: filling row ids ---------- *)
 Definition max_id (t : table) : Z := fold_left Z.max (ids_of t) 0.
@@ -385,7 +391,7 @@ Definition ref_single (e : env) (t : table) (require col_values : cells) (o : op
               end)
   end.
 
-(* ---------- the situation in which the code is known to deviate (see Props/C28.v) ---------- *)
+(* ---------- used in the proofs: trimming is harmless when no stale last entry exists ---------- *)
 Fixpoint last_for (i : Z) (us : list upd) : option upd :=
   match us with
   | [] => None
@@ -396,10 +402,6 @@ Definition stale_free (e : env) (t : table) (us : list upd) : bool :=
   forallb (fun u => implb (changed e t u)
                           (match last_for (fst u) us with Some l => changed e t l | None => true end)) us.
 Fixpoint nodupb (l : list Z) : bool := match l with [] => true | x :: t => negb (memz x t) && nodupb t end.
-Definition no_stale_update (e : env) (t : table) (require col_values : kv) (o : options) : bool :=
-  match common_length (all_lists require col_values) with
-  | Some len => stale_free e t (ref_upds e t o (rows_of len require col_values))
-  | None => true end.
 (* for the correspondence cases: tables in row-id order, finite conversion tables *)
 Fixpoint insert_row (r : row) (l : table) : table :=
   match l with [] => [r] | q :: t => if fst r <=? fst q then r :: l else q :: insert_row r t end.
